@@ -77,7 +77,70 @@ theorem shouldUpdateCommitteeAt_eq (index csize : Nat) (hc : csize ≠ 0) (hs : 
   simp [hc]
   omega
 
+/-- NEO.distributeGas (native_neo.go:642-657), translated with its writes to `acc.BalanceHeight` and
+`acc.LastGasPerVote` as result components: it is the model's `distributeGas` — same guard (block 0 or already
+distributed in this block: nothing, account untouched), same error propagation, the height set to the block index,
+LastGasPerVote refreshed only for a voting account, the computed bonus returned — for every account and ledger.
+Identifications: `n.calculateBonus` is the model's `calcBonus` (value 0 and error flag when it fails),
+`getLatestGASPerVote` of the account's candidate is `latestGpv`; `ic.Block` is never nil while a block is persisted. -/
+theorem neoDistributeGas_eq (e : Env) (l : Ledger) (acc : NeoAcc) :
+    GoFuncs.neoDistributeGas (acc.height : Int) acc.lgpv false (e.index : Int)
+        ((calcBonus l acc e.index).getD 0) (calcBonus l acc e.index).isNone acc.vote.isSome
+        (match acc.vote with | some c => latestGpv l c | none => 0)
+      = (match distributeGas e l acc with
+         | none => (0, "n_calculateBonus_ic_DAO_acc_ic_Block_Index_1_err", (acc.height : Int), acc.lgpv)
+         | some (acc', g) => (g.getD 0, "ok", (acc'.height : Int), acc'.lgpv)) := by
+  unfold GoFuncs.neoDistributeGas distributeGas
+  by_cases h0 : e.index = 0 ∨ e.index = acc.height
+  · have : ((false = true ∨ (e.index : Int) = 0) ∨ (e.index : Int) = (acc.height : Int)) := by
+      rcases h0 with h | h
+      · exact Or.inl (Or.inr (by omega))
+      · exact Or.inr (by omega)
+    rw [if_pos this, if_pos h0]; rfl
+  · have : ¬ ((false = true ∨ (e.index : Int) = 0) ∨ (e.index : Int) = (acc.height : Int)) := by
+      rintro ((h | h) | h)
+      · cases h
+      · exact h0 (Or.inl (by omega))
+      · exact h0 (Or.inr (by omega))
+    rw [if_neg this, if_neg h0]
+    cases hb : calcBonus l acc e.index with
+    | none => simp
+    | some gen =>
+      cases hv : acc.vote with
+      | none => simp
+      | some c => simp
+
+/-- NEO.dropCandidateIfZero (782-793): the translated function deletes (the candidate record, the voter-reward
+record, the cached GAS-per-vote value: three effects) exactly when the model's `dropIfZero` does — the candidate is
+not registered and has no votes. -/
+theorem neoDropCandidateIfZero_eq (l : Ledger) (c : Nat) (cd : Cand) (k : Int) :
+    (GoFuncs.neoDropCandidateIfZero cd.reg (sgn cd.votes) k).1 = (dropIfZero l c cd).isSome ∧
+    ((GoFuncs.neoDropCandidateIfZero cd.reg (sgn cd.votes) k).1 = true →
+      (GoFuncs.neoDropCandidateIfZero cd.reg (sgn cd.votes) k).2 = ["d.DeleteStorageItem", "d.DeleteStorageItem", "delete"]) := by
+  unfold GoFuncs.neoDropCandidateIfZero dropIfZero sgn
+  by_cases hr : cd.reg = true
+  · simp [hr]
+  · by_cases hv : cd.votes = 0
+    · simp [hr, hv]
+    · have : ¬ (if cd.votes < 0 then (-1 : Int) else 1) = 0 := by split <;> omega
+      simp [hr, hv, this]
+
+/-- NEO.calculateBonus (828-841): the holder reward is returned as it is exactly when it failed or the account does
+not vote (the model's `calcBonus` adds the voter part only for a voting account); otherwise the three big-integer
+steps (multiply by the balance, divide by the factor, add the holder reward) follow. -/
+theorem neoCalculateBonus_branch (end_ r key reward tmp : Int) (err noVote : Bool) :
+    (GoFuncs.neoCalculateBonus end_ r err noVote key reward tmp).1 = (if err ∨ noVote then r else tmp) ∧
+    (GoFuncs.neoCalculateBonus end_ r err noVote key reward tmp).2.2 =
+      (if err ∨ noVote then [] else ["tmp.Mul", "tmp.Div", "tmp.Add"]) := by
+  unfold GoFuncs.neoCalculateBonus
+  cases err <;> cases noVote <;> simp
+
 -- non-vacuity
+example : GoFuncs.neoDistributeGas 3 7 false 5 11 false true 9 = (11, "ok", 5, 9) ∧
+    GoFuncs.neoDistributeGas 5 7 false 5 11 false true 9 = (0, "ok", 5, 7) ∧
+    GoFuncs.neoDistributeGas 3 7 false 5 11 false false 9 = (11, "ok", 5, 7) := by decide
+example : (GoFuncs.neoDropCandidateIfZero false 0 1).1 = true ∧ (GoFuncs.neoDropCandidateIfZero true 0 1).1 = false ∧
+    (GoFuncs.neoDropCandidateIfZero false 1 1).1 = false := by decide
 example : GoFuncs.neoSetRegisterPrice 0 0 true true 5 0 = none ∧ GoFuncs.neoSetRegisterPrice 7 1 true true 5 7 = some [5, 7] := by decide
 example : GoFuncs.neoSetGASPerBlock 9 1 1 true = none ∧ GoFuncs.neoSetGASPerBlock 9 1 0 true = some [9] ∧
     GoFuncs.neoSetGASPerBlock 9 1 0 false = none := by decide
